@@ -615,4 +615,149 @@ theorem close_solv {c : Ctx} {o : Out} (h : closeBalance c = .ok o) (hp : Pre c)
   rw [hb]
   exact ⟨hsv.asv, hsv.lsv, hsv.feeI, hsv.feeG, hsv.feeP⟩
 
+/-! ### bankruptcy -/
+
+/-- position shares stay non-negative under an increase also when the deposit share value is zero (a wiped-out bank) -/
+theorem inc_nonneg0 {b0 b' : Bank} {x0 x' : Balance} {now delta : Int} {t : IncType}
+    (h : increaseBalance b0 x0 now delta t = .ok (b', x'))
+    (hd : 0 ≤ delta) (hasv : 0 ≤ b0.asv) (hlsv : 0 < b0.lsv) (ha : 0 ≤ x0.a) (hl : 0 ≤ x0.l) : 0 ≤ x'.a ∧ 0 ≤ x'.l := by
+  rcases Int.lt_or_eq_of_le hasv with h1 | h1
+  · exact Mfi.Props.C03.inc_nonneg h hd h1 hlsv ha hl
+  · obtain ⟨b1, x1, curL, d, aInc, lDec, b2, b3, hc, hcur, hsub, _, _, has, hb2, hld, hb3, _, _, _, _, hx', _⟩ := (increase_spec h).ex
+    obtain ⟨⟨r, hb1⟩, ⟨e, hx1⟩⟩ := claim_frame hc
+    obtain ⟨e2, _, _⟩ := changeAsset_frame hb2
+    have hONE := ONE_pos
+    have ecur := (mul?_some (math_ok hcur)).1
+    have hx1l : x1.l = x0.l := by rw [hx1]
+    have hx1a : x1.a = x0.a := by rw [hx1]
+    have hb1asv : b1.asv = 0 := by rw [hb1]; exact h1.symm
+    have hb1lsv : b1.lsv = b0.lsv := by rw [hb1]
+    have hb2lsv : b2.lsv = b0.lsv := by rw [e2, hb1]
+    have haInc : aInc = 0 := by
+      unfold assetShares at has
+      rw [if_pos hb1asv] at has
+      injection has with has; exact has.symm
+    have hcur0 : 0 ≤ curL := by
+      rw [ecur, hx1l, hb1lsv]; exact Int.ediv_nonneg (Int.mul_nonneg hl (le_of_lt hlsv)) (le_of_lt hONE)
+    have sl := Mfi.Props.C03.liabShares_spec (b := b2) (v := min curL delta) (by omega) (by rw [hb2lsv]; exact hlsv) hld
+    rw [hb2lsv] at sl
+    rw [hx']
+    simp only [hx1a, hx1l, haInc]
+    refine ⟨by omega, ?_⟩
+    have h1' : lDec * b0.lsv ≤ curL * ONE := by
+      have : min curL delta * ONE ≤ curL * ONE := Int.mul_le_mul_of_nonneg_right (Int.min_le_left _ _) (le_of_lt hONE)
+      linarith [sl.1]
+    have h2 : curL * ONE ≤ x0.l * b0.lsv := by rw [ecur, hx1l, hb1lsv]; exact mulfloor_le _
+    have : lDec * b0.lsv ≤ x0.l * b0.lsv := le_trans h1' h2
+    have := le_of_mul_le_mul_right this hlsv
+    omega
+
+/-- what a successful `World.bankruptcy` went through (the part the solvency argument needs) -/
+theorem bankruptcy_core2 {c : Ctx} {available : Int} {o : BkrOut} (h : bankruptcy c available = .ok o) :
+    bankState c .failsInPausedState = .ok () ∧
+    ∃ b i x st, accrueInterest c.b.books c.b.ir c.now = .ok b ∧ findIdx c.a.slots c.b.key = some i ∧
+      balAt c.a.slots i = .ok x ∧ settleBankruptcy b x available c.now = .ok st ∧
+      o.books = st.bank ∧ o.slots = c.a.slots.set i (ofBal c.b.key st.bal) ∧ o.insuranceTokens = st.coveredUp ∧
+      o.opState = (if st.kill then 3 else c.b.opState) := by
+  unfold bankruptcy at h
+  obtain ⟨_, _, h⟩ := Res.bind_ok h
+  obtain ⟨_, hstate, h⟩ := Res.bind_ok h
+  obtain ⟨_, _, h⟩ := Res.bind_ok h
+  obtain ⟨ps, _, h⟩ := Res.bind_ok h
+  obtain ⟨eq, _, h⟩ := Res.bind_ok h
+  obtain ⟨b, hb, h⟩ := Res.bind_ok h
+  split at h
+  · cases h
+  · rename_i i hi
+    obtain ⟨x, hx, h⟩ := Res.bind_ok h
+    obtain ⟨st, hst, h⟩ := Res.bind_ok h
+    injection h with h
+    subst h
+    exact ⟨hstate, b, i, x, st, hb, hi, hx, hst, rfl, rfl, rfl, rfl⟩
+
+/-- the books step of a bankruptcy settlement: the insurance tokens enter the liquidity vault; when the settlement kills the
+    bank (deposits wiped out: the sanctioned exception) the claims may rise by up to the whole bad debt, otherwise by no more
+    than what the insurance pays in -/
+structure SolvB (c : Ctx) (o : BkrOut) : Prop where
+  claims : claims o.books ≤ claims c.b.books + o.insuranceTokens * ONE * ONE + accrueAllowance c.b.books c.b.ir c.now +
+      (if o.opState = 3 then (slotOf c.a c.b.key).l * o.books.lsv else 0)
+  sv : SvFee o.books
+  lsvMono : c.b.books.lsv ≤ o.books.lsv
+  slots : AllNN o.slots
+  live : o.opState ≠ 3 → 0 < o.books.asv
+  ins : 0 ≤ o.insuranceTokens
+
+theorem bankruptcy_solv {c : Ctx} {available : Int} {o : BkrOut} (h : bankruptcy c available = .ok o) (hp : Pre c) (hav : 0 ≤ available) :
+    SolvB c o := by
+  have hONE := ONE_pos
+  obtain ⟨hstate, b, i, x, st, hb1, hi, hx, hst, hbooks, hslots, hins, hop⟩ := bankruptcy_core2 h
+  obtain ⟨hcl, hsv, m1, m2, esa, _⟩ := accrue_solv hb1 hp.sv hp.sa hp.sl hp.cfg.fees hp.cfg.base
+  have hne3 := live_of_state hstate
+  obtain ⟨s, hs, hact, hbank⟩ := findIdx_slot hi
+  obtain ⟨s', hs', rfl⟩ := balAt_ok hx
+  have : s' = s := by rw [hs] at hs'; injection hs' with hs'; exact hs'.symm
+  subst this
+  have hnn := AllNN_get hp.slots hs
+  have hslot : slotOf c.a c.b.key = s' := by
+    unfold slotOf; rw [hi]; simp [hs]
+  have hsa : 0 ≤ b.sa := by rw [esa]; exact hp.sa
+  obtain ⟨hbad, hbadpos, hcov, esoc, hsoc0, _, hup, _, _, b1, hsoc, hinc⟩ := Mfi.Props.C07.settle_spec hst hav
+  obtain ⟨eb1, hcase⟩ := Mfi.Props.C07.socialize_spec hsoc hsoc0 hsa hsv.asv
+  have hb1 : b1.lsv = b.lsv ∧ b1.sa = b.sa ∧ b1.sl = b.sl ∧ b1.feeI = b.feeI ∧ b1.feeG = b.feeG ∧ b1.feeP = b.feeP := by
+    rw [eb1]; exact ⟨rfl, rfl, rfl, rfl, rfl, rfl⟩
+  have hb1asv : 0 ≤ b1.asv ∧ b1.asv ≤ b.asv := by
+    rcases hcase with ⟨_, h0, _⟩ | ⟨_, _, h0, h1, _⟩
+    · rw [h0]; exact ⟨Int.le_refl _, hsv.asv⟩
+    · exact ⟨h0, h1⟩
+  have hbadn : 0 ≤ st.badDebt := by
+    have : (0 : Int) ≤ ZERO_AMOUNT_THRESHOLD := by decide
+    omega
+  have hfr := inc_frame hinc
+  have hsv1 : SvFee b1 := ⟨hb1asv.1, by rw [hb1.1]; exact hsv.lsv, by rw [hb1.2.2.2.1]; exact hsv.feeI, by rw [hb1.2.2.2.2.1]; exact hsv.feeG,
+    by rw [hb1.2.2.2.2.2]; exact hsv.feeP⟩
+  have hsvo : SvFee o.books := by rw [hbooks]; exact SvFee_of_frame hsv1 hfr
+  have hx2 := inc_nonneg0 hinc hbadn hsv1.asv hsv1.lsv (by simpa [toBal] using hnn.1) (by simpa [toBal] using hnn.2)
+  have elsv : o.books.lsv = b.lsv := by rw [hbooks, hfr.2.1, hb1.1]
+  have hcovn : 0 ≤ st.covered := by
+    rw [hcov]; exact Int.le_min.mpr ⟨hbadn, Int.mul_nonneg hav (le_of_lt hONE)⟩
+  have hup0 : 0 ≤ st.coveredUp := by
+    by_contra hneg
+    have : st.coveredUp * ONE < 0 := Int.mul_neg_of_neg_of_pos (by omega) hONE
+    omega
+  refine ⟨?_, hsvo, by rw [elsv]; exact m2, by rw [hslots]; exact AllNN_set hp.slots (ofBal_nn hx2), ?_, by rw [hins]; exact hup0⟩
+  · rw [hins, hslot, elsv, hop]
+    cases hk : st.kill with
+    | false =>
+      simp only [Bool.false_eq_true, if_false, if_neg hne3]
+      have := bankruptcy_step hst hav hsa hsv.asv (le_of_lt hsv.lsv) (by simpa [toBal] using hnn.2) hk
+      rw [hbooks]
+      omega
+    | true =>
+      simp only [if_true]
+      have hstep := increase_step hinc hsv1.asv (le_of_lt hsv1.lsv) hbadn (by simpa [toBal] using hnn.2)
+      have hc1 : claims b1 ≤ claims b := by
+        unfold claims
+        rw [hb1.1, hb1.2.1, hb1.2.2.1, hb1.2.2.2.1, hb1.2.2.2.2.1, hb1.2.2.2.2.2]
+        have := Int.mul_le_mul_of_nonneg_left hb1asv.2 hsa
+        omega
+      have ebad : st.badDebt = s'.l * b.lsv / ONE := by
+        unfold liabAmount at hbad
+        exact (mul?_some (math_ok hbad)).1
+      have hbl : st.badDebt * ONE ≤ s'.l * b.lsv := by rw [ebad]; exact Int.ediv_mul_le _ (by omega)
+      have hcu : 0 ≤ st.coveredUp * ONE * ONE := Int.mul_nonneg (Int.mul_nonneg hup0 (le_of_lt hONE)) (le_of_lt hONE)
+      rw [hbooks]
+      omega
+  · intro hlive
+    rw [hop] at hlive
+    cases hk : st.kill with
+    | true => rw [hk] at hlive; simp at hlive
+    | false =>
+      rw [hbooks, hfr.1]
+      rcases hcase with ⟨_, _, hkill⟩ | ⟨_, _, h0, _, hkill, _⟩
+      · rw [hk] at hkill; cases hkill
+      · rw [hk] at hkill
+        have : b1.asv ≠ 0 := by
+          intro h00; rw [h00] at hkill; simp at hkill
+        omega
+
 end Mfi.World
